@@ -1,30 +1,53 @@
 """C11 - local-peak detection is sound and complete on every non-constant series."""
+import hashlib
 import itertools
+import math
 
 import numpy as np
 from hypothesis import strategies as st
 
+import eqsig
 from eqsig.fns import peaks_and_crossings as pc
 
 from pbt import gen
 from pbt.core import clause, enum_clause, HarnessError
 from pbt.ref import peaks as ref
+from pbt.ref import peaks_mid as pm
 
 PROPERTY = "C11"
 CLAUSES = []
 ASSUMPTIONS = [
     "series are non-constant (the statement's quantifier); constant series produced by a generator are counted as class "
     "'constant' and not asserted",
-    "samples with |value| < 1e-100 are flushed to exactly 0 before the call, so every non-zero difference between samples is "
-    ">= 1e-116 in magnitude: the code multiplies successive differences and a product below 1e-308 underflows - an implicit "
-    "precondition no ground motion violates (DESIGN C11.2: stated, not tested)",
-    "|values| <= 1e9 + offsets up to 2^30, optionally rescaled by 2^k with |k| <= 300 (|values| <= 1e100: no overflow in "
-    "differences or their products)",
+    "clauses exhaustive / random / n-cyc / mid-range: samples with |value| < 1e-100 are flushed to exactly 0 before the call (every "
+    "non-zero difference between samples is >= 1e-116 in magnitude) and |values| <= 1e100; the statement's 'every non-constant "
+    "series' beyond that range (values of 1e-160 .. 1e-200, where products of two differences underflow, and of 1e150 .. 1e305, "
+    "where they overflow) is asserted by the separate clause extreme-magnitudes with the same oracles and NO flush",
+    "|values| <= 1e9 + offsets up to 2^30, optionally rescaled by 2^k with |k| <= 300 (clause extreme-magnitudes: 2^-665 .. 2^-532 and "
+    "2^500 .. 2^1015; all values stay normal finite doubles, so the rescaling is exact and differences of samples do not overflow)",
     "the reference (plateau compression + comparison of neighbouring plateaus) and the statement's validity predicate are "
     "independent encodings of the statement; the library must satisfy both, and the predicate must accept the reference's own "
-    "answer on every case - if it does not, the oracle is broken and the run is a harness error (exit 2), not a violation",
-    "cycle counter: at the reported peaks to (8+4n)*eps*max(1,value) (bound of an n-term running sum: the statement fixes the values, not the arithmetic); between them and after the last one only 'non-decreasing' is "
-    "asserted (the statement does not say how the counter rises between two peaks)",
+    "answer on every case - if it does not, the oracle is broken and the run is a harness error (exit 2), not a violation; the "
+    "mid-range clauses use the vectorised twins of both (pbt/ref/peaks_mid.py, cross-checked against the loops at import)",
+    "cycle counter: the statement names INCREMENTS only, so the counter is compared after subtracting its own first sample (a "
+    "counter that starts at another value is not flagged); at the reported peaks to (8+4n)*eps*max(1,|value|) (bound of an n-term "
+    "running sum: the statement fixes the values, not the arithmetic); between them and after the last one only 'non-decreasing' "
+    "is asserted (the statement does not say how the counter rises between two peaks)",
+    "cycle counter with opt='switched': 'reported peaks' are the switched peaks; where the C12 statement determines them uniquely "
+    "(no excursion attains its largest |value| twice, final sample non-zero) the canonical reference is used, otherwise the library's "
+    "own get_switched_peak_array_indices answer provided it satisfies the C12 predicate (if it does not, that is C12's violation and "
+    "only length / monotonicity are asserted here); sample 0 is the origin: 0.25 (origin) up to the first reported peak after sample 0, "
+    "0.5 between consecutive switched peaks; with start='peak' and a first switched peak that is not sample 0 the statement gives no "
+    "value for the stretch before it (only non-decreasing is asserted there)",
+    "reported indices must have an integer dtype: they are positions, and every caller in the repository (np.take in "
+    "get_switched_peak_array_indices, eqsig/im.py) indexes with them, which numpy refuses for floating arrays",
+    "the input-unchanged assertion of earlier versions was removed: purity of arguments is property C05's promise, not C11's",
+    "direct calls of the anchored mechanisms: clean_out_non_changing(values) must return (values at its indices, indices) with the "
+    "distinct indices = first samples of the plateaus, non-decreasing (a repeated index is tolerated: the pinned code lists sample 0 "
+    "twice for a non-zero first sample); determine_indices_of_peaks_for_cleaned_array (and its deprecated alias) on a series without "
+    "adjacent repeats must return the reported peaks of that series (the statement applied to the cleaned series)",
+    "object-level wrapper get_peak_indices(asig) is called with real eqsig.Signal / eqsig.AccSignal objects (dt hash-chosen); the "
+    "reference is computed from the values the object holds (asig.values) at the time of the call",
 ]
 EPS = np.finfo(float).eps
 ALPHABET = 5
@@ -82,7 +105,15 @@ def series(case):
     p2 = case.get("pow2")
     if p2 and spec.get("as") != "int":
         a = a * 2.0 ** p2  # exact rescaling: the answer does not depend on the unit of the series
-    a = np.where(np.abs(a) < FLUSH, 0.0, a)
+    xm = case.get("xmag")
+    if xm is not None:
+        # clause extreme-magnitudes: the largest |value| of the series is moved to (2^(xm-1), 2^xm] by an exact power-of-two factor;
+        # NO flush (all samples of the generated families stay normal doubles or exact zeros; the reference compares, it never multiplies)
+        peak = float(np.max(np.abs(a)))
+        if peak > 0:
+            a = a * 2.0 ** (int(xm) - int(math.ceil(math.log2(peak))))
+    else:
+        a = np.where(np.abs(a) < FLUSH, 0.0, a)
     if spec.get("as") == "int":
         peak = float(np.max(np.abs(a)))
         if 0 < peak < 8:
@@ -122,6 +153,9 @@ def _cases(draw, max_n=5000):
     elif draw(st.integers(0, 3)) == 0:
         case["outlier"] = [draw(st.sampled_from([0, 0, 1, -1, 3, 17])),
                            draw(st.sampled_from([-1.0, 1.0])) * 2.0 ** draw(st.integers(40, 70))]
+    if draw(st.integers(0, 3)) == 0:
+        # the object-level wrapper get_peak_indices(asig) with a real Signal / AccSignal holding the series
+        case["obj"] = [draw(st.sampled_from(["Signal", "AccSignal"])), draw(st.sampled_from(gen.REPO_DTS))]
     return case
 
 
@@ -137,7 +171,7 @@ def _classify(ctx, case, a, r_all, pl):
             ctx.cls("offset")
         if case.get("outlier"):
             ctx.cls("outlier")
-        if case.get("uint"):
+        if case.get("uint") and spec.get("as") in (None, "int"):
             ctx.cls("unsigned-dtype")
         if case.get("pow2") and spec.get("as") != "int":
             ctx.cls("rescaled")
@@ -249,13 +283,52 @@ def exhaustive(case, ctx):
 # 2. random
 
 
+def _signal(kind, arg, dt):
+    """A real eqsig object holding the series -> (object, float64 copy of the values it holds)."""
+    cls = eqsig.AccSignal if kind == "AccSignal" else eqsig.Signal
+    sig = cls(arg, float(dt))
+    return sig, np.array(sig.values, dtype=float)
+
+
+def _check_wrapper(ctx, kind, arg, dt, fast=False):
+    """get_peak_indices(asig) with a real Signal / AccSignal: the reported peaks of the values the object holds."""
+    ctx.cls("wrapper=" + kind)
+    sig, held = _signal(kind, arg, dt)
+    if (pm.is_constant if fast else ref.is_constant)(held):
+        return
+    got = np.asarray(ctx.lib(pc.get_peak_indices, sig))
+    want = pm.local_peaks(held)[0].tolist() if fast else ref.local_peaks(held)[0]
+    if got.ndim != 1 or got.tolist() != want:
+        ctx.fail("get_peak_indices(%s): got %s, reported peaks of asig.values are %s" % (kind, _sh(got.ravel().tolist()), _sh(want)))
+    if len(held) < 4:
+        return
+    # history: the same object is given other values of the same length, first and last sample (interior reversed, one interior
+    # sample moved) and read again - the answer must be that of the values it holds NOW
+    b = held.copy()
+    b[1:-1] = held[1:-1][::-1]
+    j = 1 + (len(b) - 2) // 3
+    b[j] = b[j] + (float(np.max(held)) - float(np.min(held)))
+    ctx.lib(sig.reset_values, b)
+    held = np.array(sig.values, dtype=float)
+    if (pm.is_constant if fast else ref.is_constant)(held):
+        return
+    ctx.cls("wrapper-history")
+    got = np.asarray(ctx.lib(pc.get_peak_indices, sig))
+    want = pm.local_peaks(held)[0].tolist() if fast else ref.local_peaks(held)[0]
+    if got.ndim != 1 or got.tolist() != want:
+        ctx.fail("get_peak_indices(%s) after reset_values: got %s, reported peaks of the values held now are %s" % (
+            kind, _sh(got.ravel().tolist()), _sh(want)))
+
+
 @clause(CLAUSES, "random", _cases(), quick=500, thorough=3000,
         rule="records of all kinds (element-wise reals, dyadic, few-level, noise, sines, pulse, step, walk, quake; n 2..5000; "
-             "ndarray / int / list), optionally rounded to a coarse grid of 2..9 levels (plateau-rich), shifted by an offset "
-             "(2^k up to 2^30 or a real), rescaled by 2^k (|k| <= 300), with a leading plateau (40 %) and a trailing plateau; "
-             "non-trivial = at least one interior extremum",
-        oracle="reference model (exact index equality) cross-checked against the statement's validity predicate; input unchanged",
-        require={"lead-plateau": 0.25, "interior-plateau-extremum": 0.10, "offset": 0.15, "n>512": 0.10, "rescaled": 0.05, "outlier": 0.05},
+             "ndarray / int / list / views / unsigned), optionally rounded to a coarse grid of 2..9 levels (plateau-rich), shifted by an offset "
+             "(2^k up to 2^30 or a real), rescaled by 2^k (|k| <= 300), with a leading plateau (40 %) and a trailing plateau; in a "
+             "quarter of the cases also through get_peak_indices(Signal | AccSignal); non-trivial = at least one interior extremum",
+        oracle="reference model (exact index equality) cross-checked against the statement's validity predicate; the anchored "
+               "mechanisms called directly (plateau compression, peaks of the cleaned series, deprecated alias)",
+        require={"lead-plateau": 0.25, "interior-plateau-extremum": 0.10, "offset": 0.15, "n>512": 0.10, "rescaled": 0.05, "outlier": 0.05,
+                 "unsigned-dtype": 0.02, "as=int": 0.03, "wrapper=Signal": 0.05, "wrapper=AccSignal": 0.05},
         min_nontrivial=0.3)
 def random(case, ctx):
     a, arg = series(case)
@@ -264,39 +337,153 @@ def random(case, ctx):
         return
     r_all, _ = ref.local_peaks(a)
     _classify(ctx, case, a, r_all, ref.plateaus(a))
-    before = np.array(arg, dtype=float).copy()
     _check_indices(ctx, a, arg)
-    ctx.equal(np.array(arg, dtype=float), before, "input series after the calls")
+    _check_mechanisms(ctx, a, [p[0] for p in ref.plateaus(a)], r_all)
+    if case.get("obj"):
+        _check_wrapper(ctx, case["obj"][0], arg, case["obj"][1])
+
+
+def _check_mechanisms(ctx, a, starts, r_all):
+    """The two anchored mechanisms called directly on caller data (see ASSUMPTIONS)."""
+    res = ctx.lib(pc.clean_out_non_changing, a.copy())  # documented argument: an array of floats
+    try:
+        cleaned, idx = res
+        cleaned = np.asarray(cleaned)
+        idx = np.asarray(idx)
+    except Exception:  # noqa
+        ctx.fail("clean_out_non_changing did not return a pair (cleaned values, indices)")
+    if idx.ndim != 1 or (idx.size and idx.dtype.kind not in "iu") or cleaned.shape != idx.shape:
+        ctx.fail("clean_out_non_changing: cleaned values %s / indices %s (dtype %s) are not two equally long 1-d arrays of values and "
+                 "integer indices" % (cleaned.shape, idx.shape, idx.dtype))
+    if np.any(idx < 0) or np.any(idx >= len(a)) or np.any(np.diff(idx) < 0):
+        ctx.fail("clean_out_non_changing: indices out of range or decreasing: %s" % _sh(idx.tolist()))
+    uniq = idx[np.concatenate(([True], np.diff(idx) != 0))] if idx.size else idx
+    if uniq.tolist() != [int(i) for i in starts]:
+        ctx.fail("clean_out_non_changing: indices %s are not the first samples of the plateaus %s" % (_sh(uniq.tolist()), _sh(starts)))
+    if not np.array_equal(cleaned.astype(float), a[idx]):
+        ctx.fail("clean_out_non_changing: cleaned values are not the values at the returned indices")
+    # peaks of a series without adjacent repeats = its reported peaks (the statement on the cleaned series)
+    c = a[np.asarray(starts, dtype=np.int64)]
+    want = np.searchsorted(np.asarray(starts), np.asarray(r_all)).tolist()
+    for fn in (pc.determine_indices_of_peaks_for_cleaned_array, pc.determine_indices_of_peaks_for_cleaned):
+        got = np.asarray(ctx.lib(fn, c.copy()))
+        if got.ndim != 1 or got.tolist() != want:
+            ctx.fail("%s on the plateau-compressed series: got %s, its reported peaks are %s" % (fn.__name__, _sh(got.ravel().tolist()), _sh(want)))
 
 
 # ---------------------------------------------------------------------------
 # 3. cycle counter
 
 
+OPTS = ("default", "all", "switched")
+STARTS = ("default", "origin", "peak")
+
+
 @st.composite
 def _ncyc_cases(draw):
-    case = draw(_cases(max_n=3000))
-    case["start"] = draw(st.sampled_from(["origin", "peak", "default"]))
+    case = draw(_cases(max_n=5000))
+    case.pop("obj", None)
+    extra = {"start": draw(st.sampled_from(["origin", "peak", "default"])),
+             "opt": draw(st.sampled_from(["all", "all", "default", "switched", "switched"]))}
     if draw(st.integers(0, 3)) == 0:
         # smooth, finely sampled series (far fewer than one turning point per 16 samples): slow sines, a decaying cosine, a
         # monotone cumulative curve - a counter that takes another route for such records must still honour `start`
-        n = draw(st.integers(40, 3000))
+        n = draw(st.integers(40, 5000))
         kind = draw(st.sampled_from(["sine", "sine", "decay", "cumulative"]))
         cyc = draw(st.floats(0.3, max(0.5, n / 48.0), allow_nan=False))
-        case = {"smooth": [kind, n, cyc, draw(st.floats(0, 6.28, allow_nan=False))], "start": case["start"]}
+        case = {"smooth": [kind, n, cyc, draw(st.floats(0, 6.28, allow_nan=False))]}
         if draw(st.integers(0, 2)) == 0:
             case["lead"] = draw(st.integers(1, 40))
         if draw(st.integers(0, 2)) == 0:
             case["tail"] = draw(st.integers(1, 40))
+    case.update(extra)
     return case
 
 
+def _switched_reported(ctx, a, arg, fast=False):
+    """The switched peaks opt='switched' counts (see ASSUMPTIONS), as an int64 array, or None when they cannot be named soundly."""
+    if fast:
+        canon, tie = pm.switched(a)
+    else:
+        v = a.tolist()
+        canon, tie = np.array(ref.switched_peaks(v), dtype=np.int64), ref.switched_freedom(v)[0]
+    if not tie and a[-1] != 0:
+        return canon
+    ctx.cls("switched-peaks-from-library")
+    got = np.asarray(ctx.lib(pc.get_switched_peak_array_indices, arg))
+    msg = pm.switched_violation(a, got) if fast else ref.switched_violation(a.tolist(), got.tolist() if got.ndim == 1 else got)
+    if msg is not None:
+        ctx.cls("switched-peaks-invalid(C12)")
+        return None
+    return got.astype(np.int64)
+
+
+def _check_ncyc(ctx, a, arg, opt, start, r_all, fast=False):
+    """One call of get_n_cyc_array against the statement: length, non-decreasing everywhere, increments at the reported peaks."""
+    kw = {}
+    if opt != "default":
+        kw["opt"] = opt
+    if start != "default":
+        kw["start"] = start
+    if kw.keys() == {"start"}:
+        kw["opt"] = "all"      # `start` is the second optional argument: spell the first one too, so both call forms exist
+    out = ctx.lib(pc.get_n_cyc_array, arg, **kw)
+    what = "cycle counter (opt=%s, start=%s)" % (opt, start)
+    opt = "all" if opt == "default" else opt
+    start = "origin" if start == "default" else start
+    out = np.asarray(out)
+    n = len(a)
+    ctx.shape(out, (n,), what)
+    if out.dtype.kind not in "fiu":
+        ctx.fail("%s: dtype %s" % (what, out.dtype))
+    out = out.astype(float)
+    ctx.finite(out, what)
+    d = np.diff(out)
+    if np.any(d < 0):
+        j = int(np.argmax(d < 0))
+        ctx.fail("%s decreases at sample %d: %r -> %r" % (what, j + 1, float(out[j]), float(out[j + 1])))
+    if opt == "all":
+        pk = np.asarray(r_all, dtype=np.int64)
+        first_stated = True
+    else:
+        sw = _switched_reported(ctx, a, arg, fast)
+        if sw is None or len(sw) == 0:
+            return
+        first_stated = start == "origin" or sw[0] == 0
+        pk = sw if sw[0] == 0 else np.concatenate(([0], sw))
+    # the statement names INCREMENTS: +0.5 between consecutive reported peaks, +0.25 up to the first one from the origin.  Summed from
+    # the first sample: rise[j] = out[p_j] - out[p_0] = 0.5 j - 0.25 [origin][j > 0].  Tolerance: the statement fixes the values, not
+    # the arithmetic that produces them - an implementation that accumulates the ramp sample by sample (n additions) is as correct as
+    # one that interpolates, so the bound is that of an n-term running sum, (8 + 4n) eps max(1, |value|) (3e-12 for n = 3000,
+    # 3e-10 for n = 300 000; the smallest meaningful error is a fraction of the 0.25 step).  HOW the counter rises between two
+    # reported peaks is not stated and not asserted (monotone, hence bracketed by the values at the peaks).
+    j = np.arange(len(pk), dtype=float)
+    want = 0.5 * j - (0.25 if start == "origin" else 0.0) * (j > 0)
+    rise = out[pk] - out[pk[0]]
+    tol = (8 + 4 * n) * EPS * np.maximum(1.0, np.maximum(np.abs(out[pk]), want))
+    lo = 1
+    if not first_stated:
+        # start='peak' counted over switched peaks whose first one is not sample 0: the statement gives the +0.5 steps between the
+        # switched peaks only; compare from the first switched peak on
+        rise = out[pk[1:]] - out[pk[1]]
+        want = 0.5 * np.arange(len(pk) - 1, dtype=float)
+        tol = tol[1:]
+        lo = 0
+    bad = ~(np.abs(rise - want) <= 2 * tol)
+    if np.any(bad):
+        k = int(np.argmax(bad))
+        ctx.fail("%s: rise up to reported peak #%d (sample %d) is %r, the statement gives %r (%d of %d reported peaks out)" % (
+            what, k + (0 if lo else 1), int(pk[k] if lo else pk[k + 1]), float(rise[k]), float(want[k]), int(np.sum(bad)), len(want)))
+
+
 @clause(CLAUSES, "n-cyc", _ncyc_cases(), quick=400, thorough=2000,
-        rule="same generator (n <= 3000), start in {origin, peak, default(=origin)}, opt='all'; "
-             "non-trivial = at least one interior extremum",
-        oracle="reference model: length, non-decreasing, value at the j-th reported (reference) peak = 0.5*j - 0.25*[origin]*[j>0], "
-               "non-decreasing (hence bracketed) between; tolerance (8+4n)*eps*max(1, value)",
-        require={"lead-plateau": 0.2, "start=peak": 0.1, "start=origin": 0.1, "smooth&start=peak": 0.04},
+        rule="same generator (n <= 5000) plus smooth finely sampled series (n <= 5000); opt in {default, all, switched} x start in "
+             "{default(=origin), origin, peak}; non-trivial = at least one interior extremum",
+        oracle="the statement: length, non-decreasing over the whole array, rise from the first sample to the j-th reported peak = "
+               "0.5*j - 0.25*[origin]*[j>0] (reported peaks: reference local peaks for opt='all'; switched peaks for opt='switched', "
+               "see ASSUMPTIONS); tolerance 2*(8+4n)*eps*max(1, value)",
+        require={"lead-plateau": 0.2, "start=peak": 0.1, "start=origin": 0.1, "smooth&start=peak": 0.04, "opt=switched": 0.2,
+                 "opt=switched&start=peak": 0.05, "opt=all": 0.2, "n>512": 0.08},
         min_nontrivial=0.3)
 def n_cyc(case, ctx):
     a, arg = series(case)
@@ -305,41 +492,287 @@ def n_cyc(case, ctx):
         return
     r_all, _ = ref.local_peaks(a)
     _classify(ctx, case, a, r_all, ref.plateaus(a))
-    start = case["start"]
-    ctx.cls("start=" + start)
-    if start == "default":
-        out = ctx.lib(pc.get_n_cyc_array, arg)
-        start = "origin"
-    else:
-        out = ctx.lib(pc.get_n_cyc_array, arg, opt="all", start=start)
-    out = np.asarray(out, dtype=float)
-    n = len(a)
-    ctx.shape(out, (n,), "cycle counter")
-    ctx.finite(out, "cycle counter")
-    d = np.diff(out)
-    if np.any(d < 0):
-        j = int(np.argmax(d < 0))
-        ctx.fail("cycle counter decreases at sample %d: %r -> %r" % (j + 1, float(out[j]), float(out[j + 1])))
-    expect, at = ref.n_cyc_reference(n, r_all, start)
-    expect = np.array(expect, dtype=float)
-    # tolerance: the statement fixes the VALUES at the peaks (multiples of 0.25), not the arithmetic that produces them: an
-    # implementation that accumulates the ramp sample by sample (n additions) is as correct as one that interpolates, so the
-    # bound is that of an n-term running sum, (8 + 4n) eps max(1, value) (< 3e-12 for n = 3000; the smallest meaningful
-    # error is a fraction of the 0.25 step)
-    tol = (8 + 4 * n) * EPS * np.maximum(1.0, np.abs(expect))
-    pk = np.array(r_all)
-    ctx.close(out[pk], np.array(at), tol[pk], "cycle counter at the reported peaks (start=%s)" % start)
-    # between two reported peaks the statement only promises "non-decreasing" (asserted above), which together with the exact
-    # values at the peaks brackets every sample; HOW the counter rises in between (np.interp's ramp or any other monotone
-    # rise) is not stated and not asserted.  (An earlier version demanded the linear ramp to 8 eps and flagged a correct
-    # cumulative-sum ramp that differed from it by 2e-15: a harness false alarm, removed.)
-    smooth = n > 16 * (len(r_all) + 1)
+    start, opt = case["start"], case.get("opt", "all")
+    ctx.cls("start=" + start, "opt=" + opt, "opt=%s&start=%s" % (opt, start))
+    smooth = len(a) > 16 * (len(r_all) + 1)
     ctx.cls("smooth" if smooth else None, "smooth&start=peak" if smooth and start == "peak" else None)
-    # the increments the statement names
-    if len(r_all) >= 2:
-        first = out[r_all[1]] - out[r_all[0]]
-        want = 0.25 if start == "origin" else 0.5
-        ctx.check(abs(first - want) <= (16 + 8 * n) * EPS, "counter rises by %r up to the first peak, expected %r" % (float(first), want))
-        steps = out[pk[2:]] - out[pk[1:-1]]
-        ctx.check(bool(np.all(np.abs(steps - 0.5) <= (16 + 8 * n) * EPS * np.maximum(1.0, out[pk[2:]]))),
-                  "counter does not rise by 0.5 between consecutive reported peaks")
+    _check_ncyc(ctx, a, arg, opt, start, r_all)
+
+
+# ---------------------------------------------------------------------------
+# 4. mid-range sizes (DESIGN 8.5): series of 2e3 .. 3e5 samples (thorough 2e6).  Deterministic enumeration: lengths from
+# gen.size_ladder (one per logarithmic bin, placed by a hash of VERIF_SEED, plus lengths aimed at the integer literals mined from the
+# source under test); every other parameter is a hash of (VERIF_SEED, tag, index).  The WHOLE output of every function is compared
+# with the vectorised reference / predicate of pbt/ref/peaks_mid.py; every case calls the full cross product ptype in
+# {default, all, max, min} and opt in {default, all, switched} x start in {default, origin, peak}.
+
+
+def _hu(*parts):
+    """Uniform number in [0, 1): hash of (VERIF_SEED, parts)."""
+    s = ":".join(str(p) for p in (gen.run_seed(), "c11") + parts)
+    return (int(hashlib.blake2b(s.encode(), digest_size=8).hexdigest(), 16) % 10 ** 9) / 1e9
+
+
+def _pick(seq, *parts):
+    return seq[min(len(seq) - 1, int(_hu(*parts) * len(seq)))]
+
+
+def _logu(lo, hi, *parts):
+    return float(math.exp(math.log(lo) + (math.log(hi) - math.log(lo)) * _hu(*parts)))
+
+
+def _sd(*parts):
+    return int(_hu("seed", *parts) * (2 ** 31 - 1))
+
+
+MR_KINDS = ("smooth", "band", "noise", "grid-noise", "grid-smooth", "walk")
+
+
+def _mr_series(c):
+    """Series of a mid-range case (pure function of the case).  Ordinary data that keep an error visible everywhere: noise /
+    band-limited noise / modulated sines / a random walk times a slowly varying envelope plus a non-zero mean (every stretch of
+    the series is different), optionally rounded to a coarse grid (plateaus and plateau extrema in every stretch), with a leading /
+    trailing plateau that may span many thousand samples, shifted by an offset, in a hash-chosen unit."""
+    n = int(c["n"])
+    rs = np.random.RandomState(int(c["seed"]))
+    t = np.arange(n, dtype=float)
+    kind = c["kind"]
+    if kind in ("noise", "grid-noise"):
+        a = rs.standard_normal(n)
+    elif kind == "band":
+        w = int(c["w"])
+        w2 = w // 2 + 1
+        cs = np.cumsum(rs.standard_normal(n + w + w2))
+        a = (cs[w:] - cs[:-w]) / math.sqrt(w)
+        cs = np.cumsum(a)
+        a = (cs[w2:] - cs[:-w2]) / math.sqrt(w2)
+    elif kind in ("smooth", "grid-smooth"):
+        cyc = float(c["cyc"])
+        ph = rs.uniform(0, 2 * math.pi, 3)
+        a = (np.sin(2 * math.pi * cyc * t / n + ph[0]) * (1 + 0.4 * np.sin(2 * math.pi * 3.3 * t / n + ph[1]))
+             + 0.3 * np.sin(2 * math.pi * 0.377 * cyc * t / n + ph[2]))
+    elif kind == "walk":
+        a = np.cumsum(rs.standard_normal(n)) / math.sqrt(n) * 3.0
+    else:
+        raise ValueError(kind)
+    x = t / n
+    e = {"up": 0.6 + 0.8 * x, "down": 1.4 - 0.8 * x, "hump": 0.6 + 0.8 * np.sin(math.pi * x)}[c.get("env", "up")]
+    a = a[:n] * e + 0.11
+    q = float(c.get("grid", 0))
+    if q:
+        a = np.round(a / q) * q
+    a = a + float(c.get("offset", 0.0))
+    lead = int(c.get("lead", 0))
+    if lead:
+        a[:lead + 1] = a[lead]
+    tail = int(c.get("tail", 0))
+    if tail:
+        a[n - tail - 1:] = a[n - tail - 1]
+    a = a * 2.0 ** int(c.get("unit", 0))
+    a = np.where(np.abs(a) < FLUSH, 0.0, a)
+    if pm.is_constant(a):
+        a[n // 2] += 2.0 ** int(c.get("unit", 0))
+    return np.ascontiguousarray(a)
+
+
+def _mr_container(a, how):
+    """(argument handed to the library, the float64 values it represents)."""
+    if how == "int":
+        k = 30 - int(math.ceil(math.log2(float(np.max(np.abs(a))))))
+        ai = np.round(a * 2.0 ** k).astype(np.int64)
+        if np.all(ai == ai[0]):
+            ai[len(ai) // 2] += 1
+        return ai, ai.astype(float)
+    if how == "list":
+        return [float(v) for v in a], a
+    if how in ("view", "negstride", "readonly"):
+        return gen.as_container({"as": how}, a), a
+    return a.copy(), a
+
+
+def _mr_params(kind, n, *parts):
+    c = {"kind": kind, "env": _pick(["up", "down", "hump"], "env", *parts)}
+    if kind == "band":
+        c["w"] = int(_logu(4, 120, "w", *parts))
+    if kind in ("smooth", "grid-smooth"):
+        c["cyc"] = round(_logu(3, max(10, min(3000, n / 40.0)), "cyc", *parts), 3)
+    if kind == "grid-noise":
+        c["grid"] = _pick([1.0, 0.5, 0.25], "grid", *parts)
+    if kind == "grid-smooth":
+        c["grid"] = _pick([0.25, 2.0 ** -4, 2.0 ** -7, 2.0 ** -10], "grid", *parts)
+    u = _hu("lead", *parts)
+    if u < 0.55:
+        # leading plateau: a few samples, or a stretch of up to a third of the series (spans any block boundary below n / 3)
+        c["lead"] = int(_pick([1, 2, 5], "leadn", *parts)) if u < 0.2 else int(_logu(8, max(9, n // 3), "leadn", *parts))
+    u = _hu("tail", *parts)
+    if u < 0.45:
+        c["tail"] = int(_pick([1, 2, 5], "tailn", *parts)) if u < 0.2 else int(_logu(8, max(9, n // 3), "tailn", *parts))
+    if _hu("off", *parts) < 0.4:
+        c["offset"] = _pick([1024.0, -2.5, 1.0, -0.375, 2.0 ** 20], "offv", *parts)
+    c["unit"] = _pick([0, 0, 0, -7, 5, -40, 33], "unit", *parts)
+    c["container"] = _pick(["ndarray", "ndarray", "ndarray", "list", "int", "readonly", "negstride", "view"], "cont", *parts)
+    if _hu("obj", *parts) < 0.5:
+        c["obj"] = [_pick(["Signal", "AccSignal"], "objk", *parts), _pick(gen.REPO_DTS, "objdt", *parts)]
+    return c
+
+
+def _mid_sizes(tier):
+    """The last rung is an anchor just above the nominal end of the range: a window that opens anywhere below the end is entered
+    by at least one series."""
+    if tier == "quick":
+        top = int(300000 * (1 + 0.1 * _hu("top")))
+        return sorted(set(gen.size_ladder(2000, 300000, 14, "c11:n")) | {top})
+    top = int(2000000 * (1 + 0.05 * _hu("top:t")))
+    return sorted(set(gen.size_ladder(2000, 2000000, 30, "c11:n:t", mined_limit=16)) | set(gen.ladder(2000, 300000, 14, "c11:n")) | {top})
+
+
+# micro-seconds per sample of one case (library walk over the switched peaks dominates for the peak-dense kinds)
+_COST = {"smooth": 0.15, "grid-smooth": 0.2, "band": 0.6, "walk": 1.6, "noise": 2.0, "grid-noise": 1.6}
+
+
+def _mid_cases(tier):
+    cases = []
+    for i, n in enumerate(_mid_sizes(tier)):
+        # every length: the peak-dense and the plateau-rich family always, two of the other four by hash
+        others = [k for k in MR_KINDS if k not in ("noise", "grid-noise")]
+        chosen = ["noise", "grid-noise"] + sorted(others, key=lambda k: _hu("kinds", i, k))[:2]
+        for r, kind in enumerate(chosen):
+            c = dict(n=int(n), seed=_sd("mid", i, kind), sw_start=STARTS[(i + r) % 3], cost=_COST[kind] * n, **_mr_params(kind, n, "mid", i, kind))
+            cases.append(c)
+    return cases
+
+
+def _deal(cases, shard, nshards):
+    """Costly cases first, then dealt round-robin: shards of equal weight."""
+    order = sorted(range(len(cases)), key=lambda i: (-cases[i].get("cost", 0), i))
+    for rank, i in enumerate(order):
+        if rank % nshards == shard:
+            yield cases[i]
+
+
+def _mid_enum(tier, shard, nshards):
+    return _deal(_mid_cases(tier), shard, nshards)
+
+
+def _check_indices_fast(ctx, a, arg):
+    """All ptype spellings against the vectorised reference and the vectorised statement predicate (whole output)."""
+    r_all, is_max = pm.local_peaks(a)
+    got = {}
+    for ptype in ("default",) + PTYPES:
+        out = ctx.lib(pc.get_peak_array_indices, arg) if ptype == "default" else ctx.lib(pc.get_peak_array_indices, arg, ptype=ptype)
+        out = np.asarray(out)
+        if out.ndim != 1:
+            ctx.fail("ptype=%s: result is not one-dimensional: shape %s" % (ptype, out.shape))
+        if out.size and out.dtype.kind not in "iu":
+            ctx.fail("ptype=%s: indices have dtype %s" % (ptype, out.dtype))
+        got[ptype] = out
+    for ptype in ("all", "default"):
+        msg = pm.peaks_violation(a, got[ptype])
+        if not np.array_equal(got[ptype], r_all):
+            if pm.peaks_violation(a, r_all) is not None:
+                raise HarnessError("validity predicate rejects the vectorised reference answer (n=%d)" % len(a))
+            bad = int(np.argmax(got[ptype][:len(r_all)] != r_all[:len(got[ptype])])) if len(got[ptype]) and len(r_all) else 0
+            ctx.fail("ptype=%s: %s; got %d indices, the series has %d turning points (reference); first difference at position %d: "
+                     "got %s, reference %s" % (ptype, msg or "not the set of turning points", len(got[ptype]), len(r_all), bad,
+                                               _sh(got[ptype][bad:bad + 4].tolist()), _sh(r_all[bad:bad + 4].tolist())))
+        if msg is not None:
+            raise HarnessError("validity predicate rejects the vectorised reference answer (%s)" % msg)
+    r_max, r_min = r_all[is_max], r_all[~is_max]
+    kmsg = pm.kinds_violation(a, got["all"], got["max"], got["min"])
+    if not (np.array_equal(got["max"], r_max) and np.array_equal(got["min"], r_min)):
+        if pm.kinds_violation(a, r_all, r_max, r_min) is not None:
+            raise HarnessError("max/min predicate rejects the vectorised reference answer (n=%d)" % len(a))
+        which = "max" if not np.array_equal(got["max"], r_max) else "min"
+        want = r_max if which == "max" else r_min
+        ctx.fail("ptype=%s: got %d indices %s..., the local %s are %d indices %s... (%s)" % (
+            which, len(got[which]), _sh(got[which][:6].tolist()), "maxima" if which == "max" else "minima", len(want),
+            _sh(want[:6].tolist()), kmsg))
+    if kmsg is not None:
+        raise HarnessError("max/min predicate rejects the vectorised reference answer (%s)" % kmsg)
+    return r_all
+
+
+def _mid_check(ctx, case, flush_note=True):
+    a0 = _mr_series(case)
+    arg, a = _mr_container(a0, case.get("container", "ndarray"))
+    n = len(a)
+    r_all = _check_indices_fast(ctx, a, arg)
+    starts = pm.run_starts(a)
+    ctx.cls("kind=" + case["kind"], "n>50000" if n > 50000 else "n<=50000", "container=" + case.get("container", "ndarray"),
+            "lead-plateau" if a[0] == a[1] else None, "long-lead-plateau" if case.get("lead", 0) >= 8 else None,
+            "final-plateau" if a[-1] == a[-2] else None, "offset" if case.get("offset") else None,
+            "plateau-rich" if len(starts) < 0.9 * n else None, "peaks>%d" % (10 ** int(math.log10(max(1, len(r_all))))))
+    ctx.nt(len(r_all) >= 3)
+    _check_mechanisms(ctx, a, starts, r_all)
+    if case.get("obj"):
+        _check_wrapper(ctx, case["obj"][0], arg, case["obj"][1], fast=True)
+    # cycle counter: opt='all' (and default) with every start; opt='switched' with one start per case (the library walks over the
+    # local peaks in Python for it); the start rotates with the case index so every length sees all three
+    for opt in ("default", "all"):
+        for start in STARTS:
+            _check_ncyc(ctx, a, arg, opt, start, r_all, fast=True)
+    ctx.cls("switched&start=" + case["sw_start"])
+    _check_ncyc(ctx, a, arg, "switched", case["sw_start"], r_all, fast=True)
+
+
+@enum_clause(CLAUSES, "mid-range", _mid_enum,
+             rule="series lengths gen.size_ladder(2000, 300000, 14) + an anchor just above 300 000 (thorough: to 2 000 000, 30 + 14 rungs; plus "
+                  "lengths aimed at the integer literals of the source) x four families per length (white noise, noise on a coarse grid, two of "
+                  "{modulated sines, sines on a grid, band-limited noise, random walk}); leading / trailing plateaus of 1..n/3 samples, offsets, "
+                  "units 2^-40..2^33, ndarray / list / int64 / read-only / strided containers by hash of (VERIF_SEED, index); every case calls "
+                  "ptype in {default, all, max, min}, opt in {default, all} x start in {default, origin, peak}, opt='switched' with one start "
+                  "(rotating), the two anchored mechanisms, and (half of the cases) get_peak_indices(Signal | AccSignal); "
+                  "non-trivial = at least one interior extremum",
+             oracle="reference model over the WHOLE output (vectorised plateau reference cross-checked against the loops at import; exact index "
+                    "equality) guarded by the vectorised statement predicate; cycle counter: length, non-decreasing at every sample, rise to "
+                    "every reported peak to 2*(8+4n)*eps*max(1, value)",
+             exhaustive_note="deterministic size ladder: one series length per logarithmic bin of [2000, 300000] (thorough [2000, 2000000]) and per "
+                             "mined literal, four families each, full cross product of ptype and of opt x start per case",
+             require={"kind=noise": 0.2, "kind=grid-noise": 0.2, "n>50000": 0.1, "long-lead-plateau": 0.1, "plateau-rich": 0.2},
+             min_nontrivial=0.9, quick_shards=4)
+def mid_range(case, ctx):
+    _mid_check(ctx, case)
+
+
+# ---------------------------------------------------------------------------
+# 5. extreme magnitudes: the statement says "every non-constant series"
+
+
+@st.composite
+def _extreme_cases(draw):
+    spec = draw(gen.record_specs(min_n=2, max_n=2000, kinds=KINDS, allow_int=["list", "view", "readonly"]))
+    case = {"rec": spec}
+    if draw(st.integers(0, 2)) == 0:
+        case["levels"] = draw(st.integers(2, 9))
+    if draw(st.integers(0, 2)) == 0:
+        case["offset"] = draw(st.sampled_from([-1.0, 1.0])) * 2.0 ** draw(st.integers(-3, 6))
+    if draw(st.integers(0, 4)) < 2:
+        case["lead"] = draw(st.integers(1, 5))
+    if draw(st.integers(0, 4)) == 0:
+        case["tail"] = draw(st.integers(1, 5))
+    if draw(st.booleans()):
+        case["xmag"] = draw(st.integers(-665, -532))      # largest |value| 6.5e-201 .. 1.4e-160
+    else:
+        case["xmag"] = draw(st.integers(500, 1015))       # largest |value| 3.3e150 .. 3.5e305
+    case["start"] = draw(st.sampled_from(STARTS))
+    return case
+
+
+@clause(CLAUSES, "extreme-magnitudes", _extreme_cases(), quick=300, thorough=1500,
+        rule="the series of clause random (n <= 2000; element-wise reals, dyadic, few-level, noise, sines, pulse, step, walk, quake; optional "
+             "coarse grid, offset, leading / trailing plateau) rescaled by an exact power of two so that the largest |value| is 2^-665..2^-532 "
+             "(6.5e-201 .. 1.4e-160) or 2^500..2^1015 (3e150 .. 3.5e305), WITHOUT the 1e-100 flush of the other clauses; "
+             "non-trivial = at least one interior extremum",
+        oracle="as clause random (reference model + statement predicate, exact index equality, all three ptypes) and the cycle counter of "
+               "clause n-cyc with opt='all'; the references compare samples and never multiply, so they have no range precondition",
+        require={"tiny": 0.3, "huge": 0.3}, min_nontrivial=0.3)
+def extreme_magnitudes(case, ctx):
+    a, arg = series(case)
+    ctx.cls("tiny" if case["xmag"] < 0 else "huge")
+    if ref.is_constant(a):
+        ctx.cls("constant")
+        return
+    r_all, _ = ref.local_peaks(a)
+    _classify(ctx, case, a, r_all, ref.plateaus(a))
+    _check_indices(ctx, a, arg)
+    _check_ncyc(ctx, a, arg, "all", case["start"], r_all)
